@@ -118,7 +118,11 @@ Outcome run_case(const Case &c) {
   }
   // defaults for a missing key / section are returned verbatim
   if (out.verdict.empty()) {
-    const char *ms = "\x02no-such-section", *mk = "\x02no-such-key";
+    // names that the parsed file provably does not contain (a coverage-guided input once defined a key with the fixed probe name)
+    string ms_s = "\x02no-such-section", mk_s = "\x02no-such-key";
+    while (got.count(ms_s)) ms_s += "x";
+    for (bool again = true; again;) { again = false; for (auto &sk : got) if (sk.second.count(mk_s)) { mk_s += "x"; again = true; } }
+    const char *ms = ms_s.c_str(), *mk = mk_s.c_str();
     if (p_ini_file_is_key_exists(ini, ms, mk)) fail("defaults", "missing key reported as existing");
     pchar *v = p_ini_file_parameter_string(ini, ms, mk, "dflt");
     if (!v || strcmp(v, "dflt")) fail("defaults", "string default not returned for a missing key");
@@ -189,11 +193,14 @@ rc::Gen<string> strOf(const string &charset, int maxlen) {
     for (int i = 0; i < n; i++) s += charset[(size_t)std::get<1>(t)[(size_t)i]];
     return s; });
 }
-const string KEYCH = "abcdefghijklmnopqrstuvwxyzABCDEFGHIJKLMNOPQRSTUVWXYZ0123456789_.-";
-const string PLAINCH = "abcdefghijklmnopqrstuvwxyzABCXYZ0123456789_.-+*/\\()[]{}<>!?,:=\"'@$%^&|~ \t";
-const string DQCH = "abcdefghijklmnopqrstuvwxyzABC0123456789_.-;#'= \t()[]{},:!?";
-const string SQCH = "abcdefghijklmnopqrstuvwxyzABC0123456789_.-;#\"= \t()[]{},:!?";
-const string COMCH = "abcdefghijklmnopqrstuvwxyz0123456789 =\"'[]{};#.,:-_\t";
+// bytes >= 0x80 (text in UTF-8 or a single-byte code page) are ordinary characters of names, values and comments; the byte values that
+// make up the BOMs are among them (a line that would START with a complete BOM gets a leading blank, see render)
+const string HIGH = "\xC3\xA9\xFF\xFE\xEF\xBB\xBF\x80\xA0";
+const string KEYCH = "abcdefghijklmnopqrstuvwxyzABCDEFGHIJKLMNOPQRSTUVWXYZ0123456789_.-" + HIGH;
+const string PLAINCH = "abcdefghijklmnopqrstuvwxyzABCXYZ0123456789_.-+*/\\()[]{}<>!?,:=\"'@$%^&|~ \t" + HIGH;
+const string DQCH = "abcdefghijklmnopqrstuvwxyzABC0123456789_.-;#'= \t()[]{},:!?" + HIGH;
+const string SQCH = "abcdefghijklmnopqrstuvwxyzABC0123456789_.-;#\"= \t()[]{},:!?" + HIGH;
+const string COMCH = "abcdefghijklmnopqrstuvwxyz0123456789 =\"'[]{};#.,:-_\t" + HIGH;
 
 struct GLine {
   int kind = 0;      // 0 blank 1 comment 2 section 3 key
@@ -212,11 +219,16 @@ string trim(const string &s) { size_t a = 0, b = s.size(); while (a < b && (s[a]
 
 struct Rendered { Case c; bool multi_sec = false, repeated = false, quoted_marker = false, eq_in_comment = false; int longest = 0; };
 
-Rendered render(const vector<GLine> &lines, bool bom, bool final_newline) {
+bool starts_with_bom(const string &t) {
+  auto u = [&](size_t i) { return i < t.size() ? (unsigned char)t[i] : 0x100u; };
+  return (u(0) == 0xEF && u(1) == 0xBB && u(2) == 0xBF) || (u(0) == 0xFE && u(1) == 0xFF) || (u(0) == 0xFF && u(1) == 0xFE);
+}
+// bom: 0 none, 1 UTF-8, 2 UTF-16 BE, 3 UTF-16 LE, 4 UTF-32 BE (the byte sequences the parser documents to skip at the start of the file)
+Rendered render(const vector<GLine> &lines, int bom, bool final_newline) {
   Rendered r;
   r.c.mode = 'G';
   string file;
-  if (bom) file += "\xEF\xBB\xBF";
+  if (bom == 1) file += "\xEF\xBB\xBF"; else if (bom == 2) file += "\xFE\xFF"; else if (bom == 3) file += "\xFF\xFE"; else if (bom == 4) file += string("\0\0\xFE\xFF", 4);
   string cursec; bool insec = false;
   std::map<string, std::map<string, Exp>> want;
   vector<string> order;
@@ -287,7 +299,7 @@ Rendered render(const vector<GLine> &lines, bool bom, bool final_newline) {
       text = wsn(l.ws1) + key + wsn(l.ws2) + "=" + wsn(l.ws3) + vtext;
       if (l.with_comment) text += wsn(l.ws4 % 5 + 1) + (l.num3 & 1 ? ";" : "#") + l.c;
       else text += wsn(l.ws4);
-      if (l.pad_long && l.style == 1 && text.size() < 1000 && !(bom && li == 0)) {
+      if (l.pad_long && l.style == 1 && text.size() < 1000 && !(bom && li == 0) && !starts_with_bom(text)) {
         // stretch the quoted value so that the line length hits the documented limit region
         size_t target = 1022 + (size_t)(l.num1 % 3);
         size_t add = target - text.size();
@@ -303,6 +315,7 @@ Rendered render(const vector<GLine> &lines, bool bom, bool final_newline) {
       break;
     }
     }
+    if (starts_with_bom(text)) text = " " + text;   // leading blanks are insignificant; a BOM is only meant at the start of the file
     r.longest = std::max(r.longest, (int)text.size());
     file += text;
     bool last = li + 1 == lines.size();
@@ -352,7 +365,7 @@ int run_generated() {
       vector<GLine> lines = *rc::gen::container<vector<GLine>>(genLine());
       int sid = 0;
       for (auto &l : lines) if (l.kind == 2) l.secid = sid++;
-      bool bom = *rng(0, 4) == 0, fnl = *rng(0, 5) != 0;
+      int bomsel = *rng(0, 12); int bom = bomsel < 4 ? bomsel + 1 : 0; bool fnl = *rng(0, 5) != 0;
       if (vl::excluded("comment-with-equals")) {
         for (auto &l : lines) { string f; for (char ch : l.c) if (ch != '=') f += ch; if (f != l.c) { vl::stats().count("excluded_equals_removed_from_comment"); l.c = f; } }
       }
@@ -363,7 +376,7 @@ int run_generated() {
       if (r.quoted_marker) vl::stats().klass("g_quoted_value_with_comment_marker");
       if (r.eq_in_comment) vl::stats().klass("g_equals_in_comment_or_presection_line");
       if (r.longest >= 1020) vl::stats().klass("g_line_at_length_limit");
-      if (bom) vl::stats().klass("g_bom");
+      if (bom) vl::stats().klass(bom == 1 ? "g_bom_utf8" : bom == 2 ? "g_bom_utf16be" : bom == 3 ? "g_bom_utf16le" : "g_bom_utf32be");
       exec("grammar", r.c, nt, vl::fnv1a(r.c.file), true);
     });
     if (!ok) g_failed++;
